@@ -4,7 +4,7 @@ from vlib import *
 
 def body(c):
     q = not c.thorough
-    r = c.tlc_design("MC_Budget", "MC_Budget_quick.cfg" if q else "MC_Budget_thorough.cfg", heap="12g", timeout=3000)
+    r = c.tlc_design("MC_Budget", "MC_Budget_quick.cfg" if q else "MC_Budget_thorough.cfg", heap="12g", timeout=3000, coverage=True)
     cases = tla_to_json_lines(r.prints, "CASE")
     cases.sort(key=lambda x: json.dumps(x["st"]))
     cpath = os.path.join(c.work, "cases.ndjson")
